@@ -132,6 +132,8 @@ def scopes_for_owner(owner: NixExpression) -> tuple[Scope, ...]:
         else:
             raise ResolutionError("with environment must resolve to an attribute set")
         if env_scope is not None:
+            # Mark the scope so lookups can give lexical bindings precedence.
+            env_scope.from_with = True
             scopes.append(env_scope)
 
     from nix_manipulator.expressions.function.call import FunctionCall  # type: ignore
